@@ -339,7 +339,7 @@ type sortPass struct {
 
 func checkC19(w *World, r *Result) {
 	r.Explanation = "Decides structural necessary conditions of the assembly contract on generator.WriteDeclarations: ORD-5 every comparator, evaluated over the finite set of orderings of two declarations (ID <,=,> x Priority pairs), is a strict weak order; every sorting pass after the first is stable; the composition of the passes equals 'priority declarations first, then increasing ID'; PTH-C19a the emitting loop ranges over the sorted slice, every write of Content is guarded by a failed membership test on a set keyed by the declaration's ID that is updated in the same branch (first occurrence wins, each ID once), and is followed by a newline write; nothing else is written to the output. Does not decide: the functional specification over all lists as a statement about values (permutation invariance additionally needs equal IDs to carry equal content, which is a property of the generators: see DECL-ID in C01/C04)."
-	r.Rules = []string{"ORD-5 comparator tables", "ORD-5 stability", "ORD-5 composition", "PTH-C19a guarded emission", "PTH-C19s unconditional passes", "SORT-PAR", "ALIAS-APPEND"}
+	r.Rules = []string{"ORD-5 comparator tables", "ORD-5 stability", "ORD-5 composition", "PTH-C19a guarded emission", "PTH-C19s unconditional passes", "SORT-PAR", "ALIAS-APPEND", "PTH-C19a exact guard"}
 	aliasAppendRule(w, r, func(rel string) bool { return rel == "generator" })
 	r.Assumptions = []string{"sort.Slice/sort.SliceStable implement their documented contracts", "comparators are pure functions of the two elements (checked: they read only .ID/.Priority of decls[i], decls[j])"}
 	fi := w.MustFunc("generator.WriteDeclarations")
